@@ -176,7 +176,7 @@ def main(argv) -> int:
     else:
         print(__doc__)
         return 2
-    jobs = int(os.environ.get("KVERIF_JOBS", "4"))
+    jobs = int(os.environ.get("KVERIF_JOBS", "8"))
     with ThreadPoolExecutor(jobs) as ex:
         results = list(ex.map(lambda v: run_variant(v, kind), todo))
     bad = 0
